@@ -1,10 +1,14 @@
 From Coq Require Import extraction.Extraction extraction.ExtrOcamlBasic.
-From TU Require Import Base C15_Model.
+From TU Require Import Base C15_Model C15_Seam.
 Definition run := run_C15.
 Definition check := check_C15.
 (** relational correspondence: the provider probe must be equal, and every
     (word, exclusion set) the implementation returned along the chain must be an
     element of the model's outcome set for that call (texts compared as code-point
-    strings, exclusion sets as sets) *)
-Definition agree (inp m i : val) : bool := agree_C15 false inp i.
+    strings, exclusion sets as sets). In grapheme mode additionally ([agree_C15u]):
+    every cluster list the harness supplies (words of the chain, table strings, returned
+    words) is [segment] of its concatenation; the harness' per-call seam flags are the
+    model's ([step_ss]: some explaining candidate is a chain) and the KF1-seam class flag is
+    exactly "explained, but by no chain"; the harness' [edit_safe] flag is the model's *)
+Definition agree (inp m i : val) : bool := agree_C15u inp m i.
 Extraction "model.ml" run check agree.
